@@ -118,12 +118,18 @@ fn main() {
     let mut table = Table { lens: HashMap::new(), by_topic: HashMap::new() };
     for op in ops {
         let topic = op["topic"].as_str().unwrap_or("t").to_string();
-        if let Some(es) = op["entries"].as_array() {
-            for e in es {
-                let uid = e["uid"].as_u64().unwrap();
-                table.lens.insert(uid, e["len"].as_u64().unwrap() as usize);
-                table.by_topic.entry(topic.clone()).or_default().push(uid);
+        let mut all: Vec<(String, &Value)> = Vec::new();
+        if let Some(es) = op["entries"].as_array() { for e in es { all.push((topic.clone(), e)); } }
+        if let Some(subs) = op["ops"].as_array() {
+            for so in subs {
+                let st = so["topic"].as_str().unwrap_or("t").to_string();
+                if let Some(es) = so["entries"].as_array() { for e in es { all.push((st.clone(), e)); } }
             }
+        }
+        for (tp, e) in all {
+            let uid = e["uid"].as_u64().unwrap();
+            table.lens.insert(uid, e["len"].as_u64().unwrap() as usize);
+            table.by_topic.entry(tp).or_default().push(uid);
         }
     }
     let mut insts: HashMap<String, Walrus> = HashMap::new();
@@ -198,6 +204,42 @@ fn main() {
                 "is_clean" => json!({"clean": insts[&iname].topic_is_clean(&topic)}),
                 "sleep_ms" => { std::thread::sleep(std::time::Duration::from_millis(op["ms"].as_u64().unwrap())); json!({"ok": true}) }
                 "list_dir" => json!({"files": list_dir(&dir)}),
+                "par" => {
+                    // sub-operations run concurrently, one thread each, released together by a barrier
+                    let subs = op["ops"].as_array().unwrap();
+                    let barrier = std::sync::Barrier::new(subs.len());
+                    let w = &insts[&iname];
+                    let table_ref = &table;
+                    let results: Vec<Value> = std::thread::scope(|sc| {
+                        let hs: Vec<_> = subs.iter().map(|so| {
+                            let barrier = &barrier;
+                            sc.spawn(move || {
+                                let t = so["topic"].as_str().unwrap_or("t").to_string();
+                                let bufs: Vec<Vec<u8>> = so["entries"].as_array().map(|es| es.iter().map(|e| payload(e["uid"].as_u64().unwrap(), e["len"].as_u64().unwrap() as usize)).collect()).unwrap_or_default();
+                                barrier.wait();
+                                match so["op"].as_str().unwrap() {
+                                    "read_next" => match w.read_next(&t, true) {
+                                        Ok(Some(e)) => json!({"entries": [table_ref.identify(&t, &e.data)]}),
+                                        Ok(None) => json!({"entries": []}),
+                                        Err(e) => err_json(&e),
+                                    },
+                                    "batch_read" => match w.batch_read_for_topic(&t, so["budget"].as_u64().unwrap() as usize, true, None) {
+                                        Ok(v) => json!({"entries": v.iter().map(|e| table_ref.identify(&t, &e.data)).collect::<Vec<_>>()}),
+                                        Err(e) => err_json(&e),
+                                    },
+                                    "append" => match w.append_for_topic(&t, &bufs[0]) { Ok(()) => json!({"ok": true}), Err(e) => err_json(&e) },
+                                    "batch_append" => {
+                                        let refs: Vec<&[u8]> = bufs.iter().map(|b| b.as_slice()).collect();
+                                        match w.batch_append_for_topic(&t, &refs) { Ok(()) => json!({"ok": true}), Err(e) => err_json(&e) }
+                                    }
+                                    other => json!({"unsupported_op": other}),
+                                }
+                            })
+                        }).collect();
+                        hs.into_iter().map(|h| h.join().unwrap_or(json!({"panic": "thread panicked"}))).collect()
+                    });
+                    json!({"results": results})
+                }
                 "corrupt" => {
                     // damage a file of the (closed) instance: overwrite bytes, truncate, or drop a stray file
                     use std::io::{Seek, SeekFrom, Write};
